@@ -415,6 +415,22 @@ class C19(QueryFamily):
         if rng.random() < 0.3 and c['cond'] is not None:
             # operands routed through a @predicate FUNCTION used as a value (same(v) returns v): falsy results are values too
             c['cond'] = wrap_operands(rng, c['cond'])
+        elif len(c['doms']) == 2 and rng.random() < 0.3:
+            # ONE expression object (flag = x.f) as a bare condition AND as a selected output: as a condition it is read as a boolean
+            # (also asked for its false rows, as a branch of or_), as an output it is a value - and is read again, already bound,
+            # while the condition's own evaluation is suspended
+            keys = [k for k, _ in c['doms']]
+            k0, k1 = rng.sample(keys, 2)
+            flag = ['map', ['f', gen_query.F[rng.choice(['f', 'f', 'a', 'n', 's'])]], ['var', k0]]
+            other = ['cmp', rng.choice(['>', '<=', '==', '!=']), ['map', ['f', gen_query.F[rng.choice('ab')]], ['var', k1]], ['lit', rng.randint(0, 2)]]
+            shape = rng.randrange(4)
+            c['cond'] = (['or', ['truth', flag], other, 'fn'], ['or', other, ['truth', flag], 'fn'], ['and', ['truth', flag], other, 'fn'],
+                         ['or', ['and', ['truth', flag], other, 'fn'], ['cmp', '==', ['map', ['f', gen_query.F['b']], ['var', k1]], ['lit', 0]], 'fn'])[shape]
+            c['sel'] = [['var', k0], ['var', k1], flag]
+            rng.shuffle(c['sel'])
+            c['binders'] = [['var', k] for k in keys]
+            c['form'] = 'set_of'
+            c['same_object'] = flag
         return c
 
     def stats(self, case, io):
